@@ -411,7 +411,13 @@ pub fn parse_and_bind<R: FsModuleResolver>(
                     );
                 }
 
-                ImportReference::Default { .. } => {
+                // `import D from "./a"; export { D }` re-exports the default export of a
+                ImportReference::Default { file_name, .. } => {
+                    let it = Rc::new(SymbolExport::SomethingOfOtherFile {
+                        something: "default".to_string(),
+                        file: file_name.clone(),
+                    });
+                    symbol_exports.insert_unknown(renamed.to_string(), it);
                     continue;
                 }
             }
